@@ -140,10 +140,28 @@ class Recorder:
         self.evaluations += n
         if nontrivial:
             self.nontrivial.add(fingerprint(case))
-            if len(self.samples) < self.MAX_SAMPLES:
-                self.samples.append(jsonable(case))
+            self._sample(case)
         for c in classes:
             self.classes[c] = self.classes.get(c, 0) + 1
+
+    BIG_SAMPLE = 6000  # characters of JSON: evidence files should stay readable
+
+    def _sample(self, case):
+        """keep the first MAX_SAMPLES non-trivial cases, but let smaller ones replace very long ones"""
+        if len(self.samples) < self.MAX_SAMPLES:
+            self.samples.append(jsonable(case))
+            return
+        sizes = getattr(self, "_sizes", None)
+        if sizes is None:
+            sizes = self._sizes = [len(json.dumps(x)) for x in self.samples]
+        big = max(range(len(sizes)), key=sizes.__getitem__)
+        if sizes[big] <= self.BIG_SAMPLE:
+            return
+        j = jsonable(case)
+        n = len(json.dumps(j))
+        if n < sizes[big]:
+            self.samples[big] = j
+            sizes[big] = n
 
     def bulk(self, n_eval, n_nontrivial_distinct, sample=None, classes=None):
         """For enumerations whose cases are distinct by construction."""
@@ -168,6 +186,16 @@ class Recorder:
         for s in other.samples:
             if len(self.samples) < self.MAX_SAMPLES:
                 self.samples.append(s)
+                self.__dict__.pop("_sizes", None)
+            else:  # a smaller sample replaces a very long one
+                sizes = getattr(self, "_sizes", None)
+                if sizes is None:
+                    sizes = self._sizes = [len(json.dumps(x)) for x in self.samples]
+                big = max(range(len(sizes)), key=sizes.__getitem__)
+                n = len(json.dumps(s))
+                if sizes[big] > self.BIG_SAMPLE and n < sizes[big]:
+                    self.samples[big] = s
+                    sizes[big] = n
         for c, v in other.classes.items():
             self.classes[c] = self.classes.get(c, 0) + v
         for v in other.violations:
